@@ -99,6 +99,8 @@ type fnExec struct {
 	inputConsts   []string
 	inputLeaves   []inputLeaf
 	tablesUsed    map[string]bool
+	replayParams  []*replayParam
+	replayTerms   []string
 }
 
 func (fx *fnExec) declare(name, sort string) {
@@ -932,7 +934,7 @@ func (fx *fnExec) mergeStates(es []edge) *State {
 			keys[k] = true
 		}
 	}
-	for k := range keys {
+	for _, k := range sortedValues(keys) {
 		var vs []SV
 		var cs []Term
 		for _, e := range es {
@@ -1038,6 +1040,7 @@ func (fx *fnExec) run() (err error) {
 	}
 	// ghost variables
 	fx.initGhosts()
+	fx.recordReplayTerms()
 	fx.entry = fx.st.clone()
 	// axioms used
 	if fx.ctr != nil {
@@ -1237,7 +1240,7 @@ func (fx *fnExec) havoc(ms *modSet, hint string) {
 			fx.assumps = append(fx.assumps, fmt.Sprintf("(assert (forall ((r Int)) (=> (select %s r) (select %s r))))", alive.S, na.S))
 		}
 	}
-	for c := range ms.cells {
+	for _, c := range sortedValues(ms.cells) {
 		if old, ok := fx.st.cells[c]; ok {
 			var t types.Type
 			switch x := c.(type) {
@@ -1389,4 +1392,22 @@ func svMentionsBound(v SV) bool {
 		}
 	}
 	return false
+}
+
+func sortedValues(m map[ssa.Value]bool) []ssa.Value {
+	var ks []ssa.Value
+	for k := range m {
+		ks = append(ks, k)
+	}
+	sort.Slice(ks, func(i, j int) bool {
+		a, b := ks[i], ks[j]
+		if a.Name() != b.Name() {
+			if len(a.Name()) != len(b.Name()) {
+				return len(a.Name()) < len(b.Name())
+			}
+			return a.Name() < b.Name()
+		}
+		return a.Pos() < b.Pos()
+	})
+	return ks
 }
